@@ -1,0 +1,24 @@
+// Verification hooks, compiled only with `--cfg zkryptium_verif` (off by default).
+//
+// `tick(site)` is called from inside the library's input-size-proportional loops so that
+// an external deterministic simulator can (a) count work without a clock and (b) take
+// control in the middle of a call. Without an installed callback it does nothing.
+
+use std::cell::Cell;
+
+thread_local! {
+    static TICK: Cell<Option<fn(&'static str)>> = const { Cell::new(None) };
+}
+
+/// Install (or remove) the per-thread tick callback.
+pub fn install(f: Option<fn(&'static str)>) {
+    TICK.with(|t| t.set(f));
+}
+
+/// Report one loop iteration at `site`.
+#[inline]
+pub fn tick(site: &'static str) {
+    if let Some(f) = TICK.with(|t| t.get()) {
+        f(site)
+    }
+}
